@@ -81,6 +81,10 @@ CLAIMED = {
    text="Lean 4: in the driver model a rejected compilation returns the output directory unchanged and an accepted one writes exactly writtenFiles with this run's content and leaves every other entry untouched; C/C++ write exactly the named file; multiFiles_keys: the multi-file generators create exactly the base module plus the keys of the interfaces; one-file-per-interface is refuted for Rust when names collide after case folding (known finding). "
         "Tie: the file names produced by the real Rust and Java generators are compared with the model for every case; accepted and rejected runs (10 rejection stages) for 6 backends into directories with pre-existing files; names, sizes, bytes and mtimes snapshotted before and after; banner/marking placement and truncation checked.",
    note=TB + " The ordering 'all passes and generation before the first open' is read off main.rs into the model and observed by the snapshots; I/O failures are out of scope."),
+ "C06": dict(engine="lean+tables+facts+compiled layout probes", technique="Lean 4 proof (verifier rule implies natural layout = packed layout) + sizeof/offsetof probes under 5 toolchains",
+   text="Lean 4: layout_is_packed: for every member list that satisfies the struct verifier's rule (each packed offset divisible by the verifier's alignment, total divisible by the largest) and whose target alignments divide the verifier's (primitives equal, objects 8 | 16, nested structs equal), the SysV natural layout has exactly the packed offsets and sizeof equals the summed member sizes; with C09.structVerifier_sound this covers every struct reachable from a main-file struct. Refuted for structs the passes never verify (included files): known finding. "
+        "Tie: primitive sizes/alignments and the object slot size are regenerated tables (kernel-checked); struct sizes/classes of the real MIR are compared with the model; the types emitted by the real compiler for C, C++ and Rust are compiled with gcc, clang, g++, clang++ and rustc into probes printing sizeof/offsetof of every struct and member, for generated valid structs and for random unrepaired structs (whatever is accepted must lay out without padding).",
+   note=TB + " The SysV x86-64 layout algorithm (cLayout) is a model of the target compilers, validated by the probes on every struct seen; other targets/ABIs are out of scope."),
  "C07": dict(engine="lean+tables+facts+cli", technique=T_IND,
    text="Lean 4 theorems (unbounded in hierarchy depth, members per level and interleaving) that the numbering walk hands out op-codes 0,1,2,... in ancestor-first declaration order, unique, <= 0x3FFF, and rejects chains with more than 0x4000 methods; tied to the code by kernel-checked regenerated tables (boundary 16383/16384/16385) and by sampled correspondence of the real pipeline's MIR facts with the model; the emitted numbers of C, C++, Rust and Java stubs/skeletons (incl. dispatch tables of derived interfaces) are extracted from the real compiler's output and compared with an oracle computed from the declarations; the 0x4000/0x4001 boundary is run through the real binary.",
    note=TB),
